@@ -803,7 +803,14 @@ func (fc *FnCtx) computeLoopMods(li *loopInfo) {
 	// ghost assignments attached to anchors inside the loop are conservatively havocked
 	for _, at := range fc.con.Ats {
 		if at.Kind == "ghost" || at.Kind == "after" {
-			li.modRegs["ghost."+at.Ghost] = true
+			// only when the anchor can fire inside this loop
+			for b := range li.body {
+				for _, in := range b.Instrs {
+					if kind, pat, ok := fc.anchorOf(in); ok && anchorMatches(at.Anchor, kind, pat) {
+						li.modRegs["ghost."+at.Ghost] = true
+					}
+				}
+			}
 		}
 	}
 	for b := range li.body {
@@ -1034,4 +1041,32 @@ func (fc *FnCtx) sortOfRegionTerm(region string) string {
 		return s
 	}
 	return ""
+}
+
+// anchorOf: the anchor kind and pattern text an instruction is matched by.
+func (fc *FnCtx) anchorOf(in ssa.Instruction) (string, string, bool) {
+	switch x := in.(type) {
+	case *ssa.Call:
+		n := fc.calleeName(x.Common())
+		if n == "(*sync.Mutex).Lock" {
+			return "lock", fc.srcText(x.Pos()), true
+		}
+		if n == "(*sync.Mutex).Unlock" {
+			return "unlock", fc.srcText(x.Pos()), true
+		}
+		return "call", n, true
+	case *ssa.Go:
+		return "go", fc.calleeName(x.Common()), true
+	case *ssa.Send:
+		return "send", fc.srcText(x.Pos()), true
+	case *ssa.Select:
+		return "select", fc.srcText(x.Pos()), true
+	case *ssa.MakeSlice:
+		return "make", fc.srcText(x.Pos()), true
+	case *ssa.UnOp:
+		if x.Op == token.ARROW {
+			return "recv", fc.srcText(x.Pos()), true
+		}
+	}
+	return "", "", false
 }
